@@ -79,7 +79,7 @@ class C20(Check):
     ASSUMPTIONS = ['pyarrow is trusted as parquet codec and as the independent reader']
     ANCHORS = ['rxsci/container/parquet.py', 'rxsci/data/batch.py']
     REQUIRED_TAGS = ['none', 'snappy', 'gzip', 'zstd', 'rows=0', 'rows<b', 'rows=b', 'rows=kb', 'rows%b!=0', 'path', 'fileobj',
-                     'nested', 'required', 'row_group', 'rows-with-mixed_order', 'rows-with-mixed_extra', 'rows-with-reversed', 'pushed-source', 'after-a-failed-dump']
+                     'nested', 'required', 'row_group', 'rows-with-mixed_order', 'rows-with-mixed_extra', 'rows-with-reversed', 'pushed-source', 'after-a-failed-dump', 'numpy-typed-batch-size']
     REQUIRED_OBSERVED = ['rows_compared_rxsci_reader', 'rows_compared_pyarrow_reader']
 
     def __init__(self):
@@ -132,6 +132,10 @@ class C20(Check):
             os.unlink(path)
         P = rs.container.parquet
         kw = dict(schema=schema, batch_size=b, row_group_size=case['row_group_size'], compression=case['compression'])
+        if (n + b) % 3 == 0:
+            import numpy
+            kw['batch_size'] = numpy.int64(b)       # a batch size computed with numpy
+            out.tags.append('numpy-typed-batch-size')
         if case['target'] == 'path' and n % 2:
             from ..progs import dump_pushed
             out.tags.append('pushed-source')
